@@ -82,12 +82,12 @@ def run_cases(unit_name, cases, opts, world=None):
                 nlive += 1
                 for ent in case.ensures(q, ret):
                     name, goal = ent[0], ent[1]
-                    opts = ent[2] if len(ent) > 2 else {}
-                    hy = req + q.pc + list(opts.get('defs', []))
-                    for hi, hnt in enumerate(opts.get('hints', [])):
+                    eopts = ent[2] if len(ent) > 2 else {}
+                    hy = req + q.pc + list(eopts.get('defs', []))
+                    for hi, hnt in enumerate(eopts.get('hints', [])):
                         ob = Obligation(f'{pw}/ensures.{name}.hint{hi}', hy, hnt, 'ensures', where, path=q); ob.extra['case'] = case
                         rep.obligations.append(ob)
-                    hy = hy + list(opts.get('hints', []))
+                    hy = hy + list(eopts.get('hints', []))
                     if z3.is_expr(goal) and is_true(simplify(goal)):
                         ob = Obligation(f'{pw}/ensures.{name}', [], BoolVal(True), 'ensures', where, path=q)
                         ob.result = 'proved'; ob.backend = 'simplify'
@@ -106,7 +106,7 @@ def run_cases(unit_name, cases, opts, world=None):
         except Exception as ex:
             rep.undecided.append((where, f'checker error: {type(ex).__name__}: {ex}\n{traceback.format_exc(limit=8)}'))
     rep.symexec_s = time.time() - t0
-    discharge_all(rep, timeout_ms=opts.get('timeout_ms', 10000))
+    discharge_all(rep, timeout_ms=opts.get('timeout_ms', 10000), recheck=(opts.get('tier') == 'thorough'))
     from .units import ob_dict, model_text
     violations = []
     for o in rep.obligations:
